@@ -349,6 +349,21 @@ func (c10) Gen(tier string, seed int64) []fw.Unit {
 		add("hostile", Req{Fam: "pdf417", S: hb, I: []int64{int64(r.Intn(9))}})
 		add("hostile", Req{Fam: "aztec", S: hb, I: []int64{33, 0}})
 	}
+	// decorated valid contents: nothing may be stripped, unwrapped or normalised away
+	for _, base := range []Req{
+		{Fam: "codabar", S: []byte("A1234B")}, {Fam: "ean", S: []byte("1234567")}, {Fam: "ean", S: []byte("12345670")}, {Fam: "ean", S: []byte("123456789012")}, {Fam: "ean", S: []byte("4006381333931")},
+		{Fam: "code128", S: []byte("Code128")}, {Fam: "code128nocs", S: []byte("Code128")}, {Fam: "2of5", S: []byte("1234"), I: []int64{0}}, {Fam: "2of5", S: []byte("1234"), I: []int64{1}},
+		{Fam: "code39", S: []byte("AB"), I: []int64{0, 0}}, {Fam: "code39", S: []byte("AB"), I: []int64{1, 0}}, {Fam: "code39", S: []byte("AB"), I: []int64{1, 1}},
+		{Fam: "code93", S: []byte("AB"), I: []int64{0, 0}}, {Fam: "code93", S: []byte("AB"), I: []int64{1, 0}}, {Fam: "code93", S: []byte("AB"), I: []int64{1, 1}},
+		{Fam: "qr", S: []byte("1234"), I: []int64{0, 1}}, {Fam: "qr", S: []byte("AB12"), I: []int64{1, 2}}, {Fam: "qr", S: []byte("ab12"), I: []int64{2, 3}}, {Fam: "qr", S: []byte("1234"), I: []int64{3, 0}},
+		{Fam: "datamatrix", S: []byte("DM12")}, {Fam: "pdf417", S: []byte("PDF 417"), I: []int64{2}}, {Fam: "aztec", S: []byte("Aztec"), I: []int64{33, 0}},
+	} {
+		for _, d := range decorate(base.S) {
+			q := base
+			q.S = d
+			add("decorated", q)
+		}
+	}
 	// all 256 PDF417 level bytes
 	for l := int64(0); l < 256; l++ {
 		add("pdf-level-byte", Req{Fam: "pdf417", S: []byte("LEVEL"), I: []int64{l}})
@@ -473,6 +488,12 @@ func (c10) Gen(tier string, seed int64) []fw.Unit {
 			rs[i] = refdec.FNC1 + rune(r.Intn(4))
 		}
 		add("c128-length-fnc", Req{Fam: "code128", S: []byte(string(rs))})
+		add("c128-length-fnc", Req{Fam: "code128nocs", S: []byte(string(rs))})
+		if n >= 2 {
+			mix := append([]rune{refdec.FNC1 + rune(r.Intn(4))}, []rune(string(randBytes(r, n-1, upperAB)))...)
+			add("c128-length-fnc", Req{Fam: "code128", S: []byte(string(mix))})
+			add("c128-length-fnc", Req{Fam: "code128nocs", S: []byte(string(mix))})
+		}
 	}
 	// PDF417 forced payloads around the 900 / 928 totals for every level
 	for lvl := int64(0); lvl < 9; lvl++ {
